@@ -528,7 +528,7 @@ theorem C33_drop_column_removes_exactly (s : DState) (n c : String) (h : RegInv 
         apply List.filter_congr
         intro e he
         simp only [Function.comp]
-        rw [h.1, addressed_iff norm s n c h e he]
+        rw [addressed_iff norm s n c h e he]
       · cases hok
 
 theorem RegInv_init : RegInv norm init := by
@@ -586,12 +586,11 @@ theorem C33_registries_step (s : DState) (op : DOp) (h : RegInv norm s) :
             refine ⟨h3, by simp, ?_⟩
             intro a ha b hb
             simp only [List.mem_singleton] at hb
-            subst hb
-            intro hab; subst hab
+            intro hab
             apply hnot
-            obtain ⟨e, he, rfl⟩ := List.mem_map.mp ha
+            obtain ⟨e, he, hea⟩ := List.mem_map.mp ha
             simp only [List.any_eq_true, beq_iff_eq]
-            exact ⟨e, he, rfl⟩
+            exact ⟨e, he, by rw [hea, hab, hb]⟩
       · exact h
   | dropIndex i =>
     simp only [step]; split
@@ -611,8 +610,11 @@ theorem C33_registries_step (s : DState) (op : DOp) (h : RegInv norm s) :
           simp [hk, hmeq, hm1]
         · have : ¬ (e.2.table = m.table ∧ e.2.name = i) := by
             rintro ⟨_, hn⟩; apply hk; rw [h2 e he, hn]
-          simp only [hk, beq_iff_eq, Bool.and_eq_true]
-          simp [this])
+          have hb1 : (e.1 == norm i) = false := by simpa using hk
+          rw [hb1]
+                    cases hb2 : (e.2.table == _ && e.2.name == _) with
+          | false => rfl
+          | true => simp only [Bool.and_eq_true, beq_iff_eq] at hb2; exact absurd hb2 this)
       exact RegInv_congr norm _ _ this rfl rfl
     · split
       · rename_i v hv
@@ -628,8 +630,11 @@ theorem C33_registries_step (s : DState) (op : DOp) (h : RegInv norm s) :
             simp [hk]
           · have : ¬ (e.2.table = v.2.table ∧ e.2.name = v.2.name) := by
               rintro ⟨_, hn⟩; apply hk; rw [h2 e he, hn, ← h2 v hv2, hv1]
-            simp only [hk, beq_iff_eq, Bool.and_eq_true]
-            simp [this])
+            have hb1 : (e.1 == norm i) = false := by simpa using hk
+            rw [hb1]
+                        cases hb2 : (e.2.table == _ && e.2.name == _) with
+            | false => rfl
+            | true => simp only [Bool.and_eq_true, beq_iff_eq] at hb2; exact absurd hb2 this)
         exact RegInv_congr norm _ _ this rfl rfl
       · exact h
   | insert n r =>
@@ -674,8 +679,11 @@ theorem C33_registries_step (s : DState) (op : DOp) (h : RegInv norm s) :
             apply List.map_congr_left
             intro e he
             simp only [Function.comp]
-            rw [h1, addressed_iff norm s n old ⟨h1, h2, h3⟩ e he]
-            split <;> rfl
+            have ha := addressed_iff norm s n old ⟨h1, h2, h3⟩ e he
+            by_cases hc : namesCol n old e.2 = true
+            · rw [hc] at ha; simp [hc, ha]
+            · simp only [Bool.not_eq_true] at hc
+              rw [hc] at ha; simp [hc, ha]
           · intro e he
             simp only [updCatalog, updStored, List.mem_map] at he
             obtain ⟨e0, he0, rfl⟩ := he
